@@ -183,7 +183,37 @@ def directed_cases(rng, n):
         del first, second, f1, f2
 
 
+def deep_chain_cases(rng):
+    """trees nested deeper than the interpreter's recursion limit (built bottom-up): `==` / `!=` / `hash` still give their
+    verdict (the comparison walks both trees with the library's iterative traversal)"""
+    import sys
+    depth = sys.getrecursionlimit() * 2 + rng.randint(0, 100)
+    o1, o2 = zoo.gen_origin(rng), zoo.gen_origin(rng)
+    while type(o1) is type(o2) and zoo.struct_eq(o1, o2):
+        o2 = zoo.gen_origin(rng)
+
+    def chain(leaf_origin):
+        n = zoo.Leaf(v=1, origin=leaf_origin)
+        for i in range(depth):
+            n = zoo.Un(n) if i % 3 else zoo.Opt(n)
+        return n
+    a, twin, other = chain(o1), chain(o1), chain(o2)
+    fail = None
+    try:
+        if not (a == twin) or (a != twin) or not (twin == a):
+            fail = "two deep chains with equal content and origins are not =="
+        elif (a == other) or not (a != other) or (other == a):
+            fail = "two deep chains whose deepest origins differ are =="
+        elif not (a == a) or hash(a) != hash(a):
+            fail = "== is not reflexive / hash is not constant on a deep chain"
+    except Exception as e:  # noqa
+        fail = f"comparison of chains of depth {depth} raised {type(e).__name__}"
+    yield Case("directed:deep-chain", None, None, True, f"three Un/Opt chains of depth {depth} over Leaf(v=1)", oracle_fail=fail,
+               sig="eq|directed|deep-chain")
+
+
 def cases(rng: random.Random, tier: str):
+    yield from deep_chain_cases(rng)
     yield from directed_cases(rng, 10 if tier == "quick" else 150)
     n = 250 if tier == "quick" else 6000
     for _ in range(n):
